@@ -317,7 +317,7 @@ pub fn gen_doc(r: &mut Rng, cfg: &GenCfg, root_container_pct: u64) -> MVal {
 
 pub fn gen_text_style(r: &mut Rng) -> crate::mval::TextStyle {
     crate::mval::TextStyle {
-        ws: r.below(3) as u8,
+        ws: r.below(4) as u8,
         escape_non_ascii: r.chance(1, 3),
         escape_slash: r.chance(1, 4),
         upper_hex: r.chance(1, 2),
